@@ -454,4 +454,12 @@ theorem lost_counts_evaluated :
     (elided.fams.map fun f => extinctAt [0, 2] [0, 0, 2] f.1 f.2).sum = 1 ∧
     (elided.fams.map fun f => extinctAt [] [0, 0, 2] f.1 f.2).sum = 0 := by decide +kernel
 
+/-- non-vacuity of `C06_reported_count_is_the_history`: on the repository's fixture the branch root → [0, 1] carries duplicated
+    copies and retained genes -/
+theorem reported_counts_evaluated :
+    (simpleEx.fams.map fun f => reportedAt true [] [0, 1] f.1 none f.2).sum +
+      (simpleEx.fams.map fun f => reportedAt false [] [0, 1] f.1 none f.2).sum =
+      (simpleEx.fams.map fun f => if f.1.isSuffixOf [] then lineagesAt [0, 1] f.1 f.2 else 0).sum ∧
+    0 < (simpleEx.fams.map fun f => reportedAt true [] [0, 1] f.1 none f.2).sum := by decide +kernel
+
 end Pyham.Witness
